@@ -84,7 +84,9 @@ class Run:
         per = {}
         for lab, now, name in self.w.delivered:
             per[name] = per.get(name, 0) + 1
-        return [self.ticks(s._current_time.nanoseconds), s._events_processed] + \
+        wrong_now = sum(1 for lab, now, name in self.w.delivered
+                        if lab <= len(self.prog.events) and now != self.prog.events[lab - 1]["t"] * self.step)
+        return [self.ticks(s._current_time.nanoseconds), s._events_processed, wrong_now] + \
                [per.get(n, 0) for n in sorted(self.w.ents)]
 
     def command(self, c, obs):
@@ -176,6 +178,9 @@ def execute(tid, prog, sched, cmds, *, step_ns, form="list", all_modes=False, st
     has_reset = any(c["op"] == "reset" for c in cmds)
     complete = not r.sim._is_running and r.sim._events_processed > 0 or not ref
     stats = r.stats() if (complete and not has_reset) else refstats
+    if complete and has_reset:        # after reset(); run(): at least the clock readings must be right again
+        stats = list(refstats)
+        stats[2] = r.stats()[2]
     modes = []
     if all_modes:
         for (a, rec, tr) in MODES[1:]:
@@ -340,6 +345,13 @@ def run(tier, seed, replay=None):
                         e["cby"] = c
             cmds = [dict(op="pause", a=0, b=0), dict(op="run", a=0, b=0)] + \
                    [dict(op="step", a=rng.randint(1, 4), b=0) for _ in range(rng.randint(1, 6))]
+        if kk % 8 == 6:      # two or three breakpoints that the same delivery satisfies, then resumes
+            n = rng.randint(1, 4)
+            t_n = sorted(e["t"] for e in p.events)[min(n, len(p.events)) - 1]
+            cmds = [dict(op="bp_count", a=n, b=rng.randint(0, 1)), dict(op="bp_time", a=t_n, b=1),
+                    dict(op="bp_count", a=n, b=1)][: rng.randint(2, 3)]
+            rng.shuffle(cmds)
+            cmds += [dict(op="run", a=0, b=0)] + [dict(op="resume", a=0, b=0) for _ in range(rng.randint(1, 3))]
         if kk % 4 == 3:      # a reset somewhere, program without pre-run cancels to keep entities stateless
             for e in p.events:
                 e["cby"] = 0
